@@ -38,6 +38,9 @@ func main() {
 		sizes := f.Sizes
 		if len(sizes) == 0 {
 			sizes = []int{1000, 4000, 16000}
+			if os.Getenv("VERIF_TIER_NAME") == "thorough" {
+				sizes = append(sizes, 64000)
+			}
 		}
 		counts, ok := measureFamily(f, os.Args[3], "replay", sizes)
 		if !ok {
@@ -54,6 +57,9 @@ func main() {
 	worker, _ := strconv.Atoi(os.Args[2])
 	workers, _ := strconv.Atoi(os.Args[3])
 	sizes := []int{1000, 4000, 16000}
+	if os.Getenv("VERIF_TIER_NAME") == "thorough" {
+		sizes = append(sizes, 64000)
+	}
 	if len(os.Args) > 4 {
 		sizes = nil
 		for _, a := range os.Args[4:] {
